@@ -160,7 +160,7 @@ func muxEffects(c *core.Ctx, R string) {
 		}
 		okEs, okM := false, false
 		for _, a := range fieldAssigns(u, "ServeMux.es") {
-			if ce, isC := ast.Unparen(a.Rhs).(*ast.CallExpr); isC && calleeNameOf0(ce) == "appendSorted" && g.GuardedBy(a.Loc, endsSlash) {
+			if ce, isC := ast.Unparen(a.Rhs).(*ast.CallExpr); isC && u.CalleeKey(ce) == "types.appendSorted" && g.GuardedBy(a.Loc, endsSlash) {
 				okEs = true
 			}
 		}
